@@ -24,7 +24,14 @@ fn gen_ty(d: &mut D, structs: &[usize], enums: &[usize], allow_nested: bool) -> 
         0 => scalar(d),
         1 => Ty::Opt(Box::new(scalar(d))),
         2 => Ty::Flag,
-        3 => Ty::Map(Box::new(d.pick(&[Ty::U8, Ty::Str, Ty::Bool]).clone())),
+        3 => {
+            // maps of scalars, sometimes of nested receivers
+            if allow_nested && !structs.is_empty() && d.ratio(1, 4) {
+                Ty::Map(Box::new(Ty::Recv(*d.pick(structs))))
+            } else {
+                Ty::Map(Box::new(d.pick(&[Ty::U8, Ty::Str, Ty::Bool]).clone()))
+            }
+        }
         4 => {
             let k = *d.pick(structs);
             match d.below(3) {
